@@ -333,6 +333,8 @@ ada_really_inline bool url::parse_host(std::string_view input) {
   if (input.empty()) {
     return is_valid = false;
   }  // technically unnecessary.
+  // The host is being replaced: forget the kind of the previous host.
+  host_type = DEFAULT;
   // If input starts with U+005B ([), then:
   if (input[0] == '[') {
     // If input does not end with U+005D (]), validation error, return failure.
@@ -671,6 +673,7 @@ bool url::set_host_or_hostname(const std::string_view input) {
       // special.
       if (host_view.empty() && !is_special()) {
         host = "";
+        host_type = DEFAULT;
         return check_url_size();
       }
 
